@@ -48,6 +48,8 @@ func (m *Model) GetPositions(opts ...resource.ReadOption) (*traits.OpenClosePosi
 	for i, position := range allPositions {
 		dst.States[i] = position.(*traits.OpenClosePosition)
 	}
+	// ids only sort like direction numbers for 0..99, PullPositions orders by number: do the same here
+	sortPositions(dst.States)
 
 	preset, _ := m.presetForValue(dst.States)
 	if preset != nil {
